@@ -210,8 +210,27 @@ func (l lv) LogValue() slog.Value { return l.v }
 type mOK struct{ s string }
 
 func (m mOK) MarshalJSON() ([]byte, error) {
-	q, _ := json.Marshal(m.s)
-	return []byte(" { \"a\" : [ 1 , 2.50e+1 , " + string(q) + " ] ,\n \"b\":null } "), nil
+	return []byte(" { \"a\" : [ 1 , 2.50e+1 , " + rawQuote(m.s) + " ] ,\n \"b\":null } "), nil
+}
+
+// rawQuote is what a careless Marshaler does: a JSON string literal that escapes quote, backslash and control
+// bytes and copies every other byte, valid UTF-8 or not. encoding/json passes a Marshaler's bytes on unchecked.
+func rawQuote(s string) string {
+	var b strings.Builder
+	b.WriteByte('"')
+	for i := 0; i < len(s); i++ {
+		switch c := s[i]; {
+		case c == '"' || c == '\\':
+			b.WriteByte('\\')
+			b.WriteByte(c)
+		case c < 0x20:
+			fmt.Fprintf(&b, "\\u%04x", c)
+		default:
+			b.WriteByte(c)
+		}
+	}
+	b.WriteByte('"')
+	return b.String()
 }
 
 type mFail struct{ msg string }
@@ -388,8 +407,8 @@ func (g *gen) leaf() slog.Value {
 		return slog.AnyValue(s)
 	case 18:
 		s := g.str()
-		if !utf8.ValidString(s) { // a Marshaler's output is copied verbatim by encoding/json: keep it valid UTF-8 (assumption)
-			s = strings.ToValidUTF8(s, "?")
+		if !utf8.ValidString(s) {
+			kindCount["marshaler_returns_invalid_utf8"]++
 		}
 		return slog.AnyValue(mOK{s})
 	case 19:
@@ -414,7 +433,7 @@ func (g *gen) leaf() slog.Value {
 	case 22:
 		return slog.AnyValue(nil)
 	case 23:
-		return slog.AnyValue(tmText{strings.ToValidUTF8(g.str(), "\ufffd")})
+		return slog.AnyValue(tmText{g.str()})
 	case 24:
 		switch g.r.Intn(5) {
 		case 0:
@@ -431,7 +450,7 @@ func (g *gen) leaf() slog.Value {
 	case 25:
 		return slog.AnyValue([]any{g.scalarAny(), g.scalarAny(), []any{}, map[string]any{}})
 	case 26:
-		return slog.AnyValue(json.RawMessage([]string{"{\"r\": [1, 2]}", "{", "null", " 7 "}[g.r.Intn(4)]))
+		return slog.AnyValue(json.RawMessage([]string{"{\"r\": [1, 2]}", "{", "null", " 7 ", "\"\xc0\xaf\"", "{\"k\xff\":[\"v\xe2\x80\",1e-07]}", rawQuote(g.str())}[g.r.Intn(7)]))
 	case 27:
 		return slog.AnyValue(int32(g.r.Intn(1000)) - 500) // AnyValue turns the numeric types into Int64/Uint64/Float64
 	case 28:
@@ -542,7 +561,15 @@ type caseOut struct {
 }
 
 func (c *caseOut) emit(e *hk.Env) {
-	t := []string{"E", strconv.Itoa(c.level), hk.Hxs(c.timeTx)}
+	tag := "E"
+	sz := len(c.msg)
+	for _, w := range c.writes {
+		sz += len(w)
+	}
+	if sz > 6000 {
+		tag = "EL" // long case: judged by the driver like any other, but not drawn into the in-Coq sample
+	}
+	t := []string{tag, strconv.Itoa(c.level), hk.Hxs(c.timeTx)}
 	if c.file == "~" {
 		t = append(t, "~", "0")
 	} else {
@@ -577,19 +604,6 @@ func (c *caseOut) emit(e *hk.Env) {
 	e.Case(t...)
 }
 
-// trimmed file name as appendJsonSource prints it: the last two path elements
-func lastTwo(file string) string {
-	i := strings.LastIndexByte(file, '/')
-	if i <= 0 {
-		return file
-	}
-	j := strings.LastIndexByte(file[:i], '/')
-	if j < 0 {
-		return file
-	}
-	return file[j+1:]
-}
-
 func timeFromLine(w []byte) string {
 	const p = `{"time":"`
 	if !bytes.HasPrefix(w, []byte(p)) {
@@ -605,11 +619,22 @@ func timeFromLine(w []byte) string {
 
 var testTime = time.Date(2000, 1, 2, 3, 4, 5, 6, time.UTC)
 
+// decoy derives a SIBLING from the parent after the real child was derived: what the child logs later must not
+// depend on it (the model's derived handler is a function of its own chain only).
+func decoyH(h logger.Handler, r *hk.Rng) {
+	if r.Bool() {
+		h.WithAttrs([]slog.Attr{slog.String("decoy", "DECOY-DECOY-DECOY"[:1+r.Intn(17)])})
+	} else {
+		h.WithGroup("decoy"[:1+r.Intn(5)])
+	}
+}
+
 // handler-level: hand-built record with a fixed time through Handler.Handle
 func runHandlerCase(e *hk.Env, addSource bool, lvl int, t time.Time, msg string, chain []chainStep, attrs []slog.Attr, realPC bool) *caseOut {
 	w := &capW{}
 	var h logger.Handler = logger.NewJsonHandler(w, logger.NewOptions(logger.LevelDebug, false, addSource))
 	c := &caseOut{level: lvl, msg: msg, file: "~"}
+	dr := hk.NewRng(uint64(len(msg)*131 + len(chain)*7 + lvl))
 	func() {
 		defer func() {
 			if r := recover(); r != nil {
@@ -618,22 +643,24 @@ func runHandlerCase(e *hk.Env, addSource bool, lvl int, t time.Time, msg string,
 		}()
 		for i := range chain {
 			s := &chain[i]
+			parent := h
 			if s.isAt {
 				h = h.WithAttrs(s.attrs)
 				s.abs = walkAttrs(s.attrs)
 			} else {
 				h = h.WithGroup(s.group)
 			}
+			decoyH(parent, dr)
 		}
 		var pc uintptr
 		if addSource {
 			c.file, c.line = "", 0
 			if realPC {
-				var pcs [1]uintptr
-				runtime.Callers(1, pcs[:])
-				pc = pcs[0]
-				f, _ := runtime.CallersFrames(pcs[:]).Next()
-				c.file, c.line = lastTwo(f.File), f.Line
+				st := sites[dr.Intn(len(sites))]
+				pc = st.pc()
+				f, _ := runtime.CallersFrames([]uintptr{pc}).Next()
+				c.file, c.line = f.File, f.Line // the FULL file name; the cut to two path elements is the model's
+				siteCount[st.name]++
 			}
 		}
 		rec := slog.NewRecord(t, levels[lvl], msg, pc)
@@ -647,8 +674,17 @@ func runHandlerCase(e *hk.Env, addSource bool, lvl int, t time.Time, msg string,
 	return c
 }
 
-// logger-level: Logger.With / WithGroup / Info / Debug / Warn / Error / Log / LogAttrs; time is time.Now()
-// inside the logger, so the time text is read back from the line (and must be RFC3339Nano of "now").
+var siteCount = map[string]int{}
+var methodCount = map[string]int{}
+var methodNames = []string{"Debug", "Info", "Warn", "Error", "Log", "LogAttrs", "Debugf", "Infof", "Warnf", "Errorf", "Logf", "Panic", "Panicf"}
+
+// level a Logger method logs at (-1: the level argument)
+var methodLevel = []int{0, 1, 2, 3, -1, -1, 0, 1, 2, 3, -1, 3, 3}
+
+// logger-level: Logger.With / WithGroup, then one of Debug Info Warn Error Log LogAttrs, the formatting variants
+// Debugf Infof Warnf Errorf Logf, Panic / Panicf (recovered), called from inside a function that may be declared
+// under a //line directive. Time is time.Now() inside the logger, so the time text is read back from the line (and
+// must be RFC3339Nano of "now"); source must be the position of the CALL, which the site reports itself.
 func runLoggerCase(e *hk.Env, g *gen, addSource bool, lvl int, msg string, chain []chainStep, attrs []slog.Attr) *caseOut {
 	w := &capW{}
 	l := logger.New(logger.NewJsonHandler(w, logger.NewOptions(logger.LevelDebug, false, addSource)))
@@ -662,19 +698,32 @@ func runLoggerCase(e *hk.Env, g *gen, addSource bool, lvl int, msg string, chain
 		}()
 		for i := range chain {
 			s := &chain[i]
+			parent := l
 			if s.isAt {
 				l = l.With(s.args...)
 			} else {
 				l = l.WithGroup(s.group)
 			}
+			if g.r.Bool() {
+				parent.With("decoy", "DECOY-DECOY-DECOY"[:1+g.r.Intn(17)])
+			} else {
+				parent.WithGroup("decoy"[:1+g.r.Intn(5)])
+			}
 		}
+		m := g.r.Intn(nMethods)
+		if methodLevel[m] >= 0 {
+			c.level = methodLevel[m]
+		}
+		isF := m >= lmDebugf && m <= lmLogf || m == lmPanicf
 		// what reaches the handler: Record.Add / Record.AddAttrs are log/slog's
 		tmp := slog.NewRecord(time.Time{}, 0, "", 0)
-		useAttrs := g.r.Bool()
 		var args []any
-		if useAttrs {
+		switch {
+		case isF:
+			c.msg = fmt.Sprintf(fmtF, msg, 7)
+		case m == lmLogAttrs:
 			tmp.AddAttrs(attrs...)
-		} else {
+		default:
 			for _, a := range attrs {
 				if g.r.Bool() && a.Key != "" {
 					args = append(args, a.Key, a.Value)
@@ -685,31 +734,12 @@ func runLoggerCase(e *hk.Env, g *gen, addSource bool, lvl int, msg string, chain
 			tmp.Add(args...)
 		}
 		tmp.Attrs(func(a slog.Attr) bool { c.attrs = append(c.attrs, walkAttr(a)); return true })
-		ctx := context.Background()
-		var file string
-		var line int
-		switch {
-		case useAttrs:
-			_, file, line, _ = runtime.Caller(0)
-			l.LogAttrs(ctx, levels[lvl], msg, attrs...)
-		case lvl == 0 && g.r.Bool():
-			_, file, line, _ = runtime.Caller(0)
-			l.Debug(msg, args...)
-		case lvl == 1 && g.r.Bool():
-			_, file, line, _ = runtime.Caller(0)
-			l.Info(msg, args...)
-		case lvl == 2 && g.r.Bool():
-			_, file, line, _ = runtime.Caller(0)
-			l.Warn(msg, args...)
-		case lvl == 3 && g.r.Bool():
-			_, file, line, _ = runtime.Caller(0)
-			l.Error(msg, args...)
-		default:
-			_, file, line, _ = runtime.Caller(0)
-			l.Log(ctx, levels[lvl], msg, args...)
-		}
+		st := sites[g.r.Intn(len(sites))]
+		siteCount[st.name]++
+		methodCount[methodNames[m]]++
+		file, line := st.log(l, m, levels[lvl], msg, args, attrs)
 		if addSource {
-			c.file, c.line = lastTwo(file), line+1
+			c.file, c.line = file, line+1 // the call is on the line after runtime.Caller(0)
 		}
 	}()
 	after := time.Now()
@@ -851,9 +881,10 @@ func sweepStrings(e *hk.Env) []string {
 
 // ---------------------------------------------------------------- cross-validation of the Coq parser
 
-// strictValid = RFC 8259 + valid UTF-8 + no lone surrogate escapes (what Lib/Json.v accepts)
+// strictValid = RFC 8259 + no lone surrogate escapes (what Lib/Json.v accepts; like encoding/json it reads an invalid
+// UTF-8 byte inside a string as U+FFFD, and json.Valid rejects such bytes anywhere else)
 func strictValid(b []byte) bool {
-	if !json.Valid(b) || !utf8.Valid(b) {
+	if !json.Valid(b) {
 		return false
 	}
 	in := false
@@ -1053,7 +1084,6 @@ func crossValidate(e *hk.Env, lines [][]byte) error {
 	return nil
 }
 
-
 // ---------------------------------------------------------------- replay / corpus
 
 // rebuildCase turns a case line (as written by emit; the observed writes are ignored) back into Go values
@@ -1073,7 +1103,7 @@ func (ts *tokStream) next() string {
 	ts.i++
 	return x
 }
-func (ts *tokStream) int() int { n, _ := strconv.Atoi(ts.next()); return n }
+func (ts *tokStream) int() int   { n, _ := strconv.Atoi(ts.next()); return n }
 func (ts *tokStream) hx() string { return string(hk.Unhx(ts.next())) }
 
 func (ts *tokStream) attr() slog.Attr {
@@ -1181,6 +1211,26 @@ func caseLinesOf(path string) []string {
 
 // ---------------------------------------------------------------- driver
 
+// allPositions logs one record in which s occupies every position a string can occupy.
+func allPositions(e *hk.Env, s string, lvl int) *caseOut {
+	var chain []chainStep
+	if s != "" {
+		chain = append(chain, chainStep{group: s})
+	}
+	chain = append(chain, chainStep{isAt: true, attrs: []slog.Attr{slog.String(s, s), slog.Any("we", errT{s})}})
+	attrs := []slog.Attr{
+		slog.String(s, s),
+		{Key: s, Value: slog.GroupValue(slog.String("k", s), slog.String(s, "v"))}, // keyed group; inline when s is empty
+		slog.Any("e", errT{s}),
+		slog.Any("a", logger.AnsiString{Value: s}),
+		slog.Any("m", mFail{s}),
+		slog.Any("t", tmText{s}),
+		slog.Any("p", mPanic{s}),
+		slog.Any(s, lv{slog.StringValue(s)}),
+	}
+	return runHandlerCase(e, false, lvl, testTime, s, chain, attrs, false)
+}
+
 func runC01(e *hk.Env) error {
 	nTrees := 20000
 	if e.Thorough() {
@@ -1266,15 +1316,69 @@ func runC01(e *hk.Env) error {
 		e.Stats["regression_cases"] = ncases
 	}
 
-	// 1. string sweeps: each string as message, as key and as string value of one record
+	// 1. string sweeps: each string in every position of one record at once: message, key, string value, WithGroup
+	// name, With attribute, group key, member of a group, error text, AnsiString, Marshaler-error text, TextMarshaler
+	// text, and inside the output of a Marshaler that copies bytes >= 0x80 unchecked (9 attributes: slog's back slice)
 	strs := sweepStrings(e)
 	for i, s := range strs {
-		c := runHandlerCase(e, false, i%5, testTime, s, nil, []slog.Attr{slog.String(s, s)}, false)
+		c := allPositions(e, s, i%5)
 		c.emit(e)
 		keepLine(c, 23)
 		ncases++
+		// the same string inside what careless Marshalers return (invalid UTF-8 is handed through by encoding/json):
+		// kept in a record of its own, because only records WITHOUT such a value are required to be UTF-8 throughout
+		c = runHandlerCase(e, false, i%5, testTime, "m", nil, []slog.Attr{slog.Any("r", mOK{s}), slog.Any("j", json.RawMessage(rawQuote(s)))}, false)
+		c.emit(e)
+		ncases++
 	}
 	e.Stats["string_cases"] = len(strs)
+
+	// 1b. long strings (the pooled buffer starts at 1 KiB and is dropped above 16 KiB; a scanner may have a fast path
+	// for long inputs): hostile bytes at the start / middle / end of 63 B ... 70 KiB
+	nlong := 0
+	longHist := map[int]int{}
+	for _, size := range []int{63, 64, 65, 200, 1024, 4096, 17 << 10, 70 << 10} {
+		ins := []string{"\xff", "\"", "\\", "\n", "\x00", "\u2028", "\xe2\x80", "\u00e9", "\xf0\x9f\x98\x80", "\x7f", "\xed\xa0\x80"}
+		if size > 4096 && !e.Thorough() {
+			ins = ins[:4]
+		}
+		for k, h := range ins {
+			for pos := 0; pos < 3; pos++ {
+				b := make([]byte, 0, size)
+				for len(b) < size {
+					b = append(b, "abcdefghij klmno/pqrst"[len(b)%22])
+				}
+				at := []int{0, size / 2, size - len(h)}[pos]
+				copy(b[at:], h)
+				ls := string(b)
+				var c *caseOut
+				if size <= 4096 {
+					c = allPositions(e, ls, (k+pos)%5)
+				} else { // one position at a time, so that a single line stays below ~150 KiB
+					switch (k + pos) % 6 {
+					case 0:
+						c = runHandlerCase(e, false, 1, testTime, ls, nil, []slog.Attr{slog.Int("k", 1)}, false)
+					case 1:
+						c = runHandlerCase(e, false, 2, testTime, "m", nil, []slog.Attr{slog.String(ls, "v")}, false)
+					case 2:
+						c = runHandlerCase(e, true, 3, testTime, "m", nil, []slog.Attr{slog.String("k", ls), slog.Any("e", errT{"x"})}, true)
+					case 3:
+						c = runHandlerCase(e, false, 4, testTime, "m", []chainStep{{group: ls}, {isAt: true, attrs: []slog.Attr{slog.Int("k", 1)}}}, nil, false)
+					case 4:
+						c = runHandlerCase(e, false, 0, testTime, "m", []chainStep{{isAt: true, attrs: []slog.Attr{slog.Any("e", errT{ls})}}}, []slog.Attr{slog.Any("m", mFail{ls})}, false)
+					default:
+						c = runLoggerCase(e, &gen{e.Rng.Fork()}, true, 1, ls, []chainStep{{group: "g"}}, []slog.Attr{slog.Group(ls, slog.String("a", ls[:100]))})
+					}
+				}
+				c.emit(e)
+				ncases++
+				nlong++
+				longHist[size]++
+			}
+		}
+	}
+	e.Stats["long_string_cases"] = nlong
+	e.Stats["long_string_sizes"] = longHist
 
 	// 2. random trees x chains x levels x source, handler level and logger level
 	g := &gen{e.Rng.Fork()}
@@ -1287,7 +1391,11 @@ func runC01(e *hk.Env) error {
 		lvl := g.r.Intn(5)
 		src := g.r.Chance(30)
 		msg := g.str()
-		attrs := g.attrs(depth, 5)
+		maxAttrs := 5
+		if g.r.Chance(15) {
+			maxAttrs = 14 // beyond the 5 inline slots of slog.Record
+		}
+		attrs := g.attrs(depth, maxAttrs)
 		var c *caseOut
 		if g.r.Chance(60) {
 			ch := g.chain(false, depth)
@@ -1326,6 +1434,8 @@ func runC01(e *hk.Env) error {
 	e.Stats["modes"] = modes
 	e.Stats["records_without_attrs"] = nEmptyOut
 	e.Stats["value_kinds_seen"] = kindCount
+	e.Stats["call_sites"] = siteCount
+	e.Stats["logger_methods"] = methodCount
 	e.Stats["cases"] = ncases
 
 	// 3. the parser of the specification against encoding/json
